@@ -107,3 +107,9 @@ Definition list_eqb (a b : list Z) : bool := Z.eqb (first_diff a b) (-1).
 
 Fixpoint repeat_op {A} (n : nat) (x : A) : list A :=
   match n with O => [] | S k => x :: repeat_op k x end.
+
+Fixpoint count_id (id : Z) (l : list Z) : Z :=
+  match l with [] => 0 | x :: t => (if Z.eqb x id then 1 else 0) + count_id id t end.
+
+Fixpoint memZ (x : Z) (l : list Z) : bool :=
+  match l with [] => false | y :: t => Z.eqb x y || memZ x t end.
